@@ -458,6 +458,8 @@ def gen_case(rng: Any, family: str) -> dict[str, Any]:
     head_ids = [1, 4, 6, 8]
     if family in ("presigned", "presigned_parallel", "rangecap"):
         uid = rng.choice(presigned_ids)
+    elif family == "cenc":
+        uid = rng.choice(presigned_ids if _cenc_counter[0] % 3 else head_ids)
     elif family == "rejected_start":
         uid = rng.choice(rejected or [3])
     else:
@@ -476,7 +478,8 @@ def gen_case(rng: Any, family: str) -> dict[str, Any]:
     obj_dec = bytes(rng.randrange(256) for _ in range(n))
     codec = 0
     obj = obj_dec
-    use_codec = family == "codec" or (family in ("single", "mixed") and rng.random() < 0.25)
+    use_codec = family in ("codec", "cenc") or (family in ("single", "mixed") and rng.random() < 0.25)
+    pce = gce = 0
     cfg = {"threshold": rng.choice([0, 10, 50, 1000]), "chunk": rng.choice([1, 7, 16, 40, 64]), "max_fetch": rng.choice([5, 50, 100, 200, 1000]),
            "max_dec": rng.choice([None, None, 10, 100, 5000]), "max_redir": maxr, "mult2": rng.choice([0, 1, 2, 3, 4, 4]),
            "max_hedges": rng.choice([0, 1, 2, 4]), "max_parallel": rng.choice([1, 2, 3, 8])}
@@ -490,10 +493,22 @@ def gen_case(rng: Any, family: str) -> dict[str, Any]:
 
         payload = rng.choice([b"A" * rng.choice([20, 300, 6000]), obj_dec, b"hello world " * 7])
         obj_dec = payload
-        codec = rng.choice([1, 1, 2, 3, 9])
-        obj = {1: lambda b: zstandard.ZstdCompressor(level=3).compress(b), 2: lambda b: gzip.compress(b, mtime=0), 3: lambda b: b, 9: lambda b: b}[codec](payload)
-        if rng.random() < 0.7:
+        if family == "cenc":
+            pce, gce = CENC_PAIRS[_cenc_counter[0] % len(CENC_PAIRS)]
+            _cenc_counter[0] += 1
+        else:
+            codec = rng.choice([1, 1, 2, 3, 9])
+            other = rng.choice([t for t in (1, 2, 3, 9) if t != codec])
+            pce, gce = {"probe": (codec, 0), "get": (0, codec), "both": (codec, codec), "disagree": (other, codec)}[rng.choice(["probe", "get", "both", "disagree"])]
+        # the body is encoded as the response that delivers it says (the probe's word counts only when the GET is silent)
+        codec = gce or pce
+        obj = encode_body(codec, payload)
+        if rng.random() < 0.7 or family == "cenc":
             cfg["max_fetch"] = max(cfg["max_fetch"], len(obj))
+        if family == "cenc":
+            cfg.update({"threshold": 10**9, "max_dec": rng.choice([None, 10**6])})
+    # keep the number of range tasks of any path the code may take small (a 6000-byte body with 1-byte chunks is 6000 tasks)
+    cfg["chunk"] = max(cfg["chunk"], -(-len(obj) // 24))
     form = lambda: rng.randrange(30)  # noqa: E731
     case: dict[str, Any] = {"family": family, "cfg": cfg, "url": POOL[uid], "validator": vkind, "denied": denied, "rejected": rejected}
 
@@ -514,21 +529,20 @@ def gen_case(rng: Any, family: str) -> dict[str, Any]:
                 cfg["max_fetch"] = max(cfg["max_fetch"], declared)
             if cfg["chunk"] == 1 and declared > 40:
                 cfg["chunk"] = 16
-        ce = codec
-        if use_codec:
-            case.setdefault("cenc_on", rng.choice(["probe", "get", "both", "get_unknown_overrides"]))
         # --- probe
         if presigned:
             r = rng.random()
+            if family == "cenc":
+                r = 0.3 if rng.random() < 0.6 else 0.5      # 206 probe or 200 (range ignored): both carry the probe's encoding
             if family in ("presigned_parallel", "underreport", "overreport", "hedge") or r < 0.45:
                 cr: Any = declared if rng.random() < 0.9 else None
                 body: Any = ("range", {"sizes": rand_sizes(rng, 3)})
                 if rng.random() < 0.2 and family == "presigned":
                     body = ("range", {"extra": rng.choice([1, 2, 70]), "sizes": rand_sizes(rng, 3)}) if rng.random() < 0.6 else ("static", [])
-                fin = R(206, crange=cr, ar=rng.choice([0, 0, 1, 2] if family == "presigned" else [0, 1]), cenc=ce if case.get("cenc_on") in ("probe", "both") else 0,
+                fin = R(206, crange=cr, ar=rng.choice([0, 0, 1, 2] if family == "presigned" else [0, 1]), cenc=pce,
                         body=body, berr=(rng.random() < 0.05), form=form(), delay=rng.randint(0, 3))
             elif r < 0.65:
-                fin = R(200, clen=declared, cenc=ce if case.get("cenc_on") in ("probe", "both") else 0, body=("range", {}), form=form())
+                fin = R(200, clen=declared, cenc=pce, body=("range", {}), form=form())
             elif r < 0.8:
                 fin = R(rng.choice([403, 405, 501]), form=form())
             elif r < 0.9:
@@ -536,26 +550,26 @@ def gen_case(rng: Any, family: str) -> dict[str, Any]:
             else:
                 fin = R(rng.choice([400, 404, 416, 500, 503, 300, 304]), form=form())
         else:
-            r = rng.random()
+            r = rng.random() if family != "cenc" else 0.1
             if parallel or r < 0.55:
                 cl: Any = declared
                 ar = 1
                 if not parallel:
                     cl = rng.choice([declared, declared, None, "bad", -5, declared + 3, max(0, declared - 3), 10**7])
                     ar = rng.choice([0, 1, 1, 2])
-                fin = R(rng.choice([200, 200, 200, 204, 206]), clen=cl, ar=ar, cenc=ce if case.get("cenc_on") in ("probe", "both", "get_unknown_overrides") else 0, form=form(), delay=rng.randint(0, 3))
+                fin = R(rng.choice([200, 200, 200, 204, 206]), clen=cl, ar=ar, cenc=pce, form=form(), delay=rng.randint(0, 3))
             elif r < 0.8:
                 fin = R(rng.choice([403, 405, 501]), form=form())
             else:
                 fin = R(rng.choice([400, 404, 500, 503, 300, 304, 100]), form=form())
-        sc["probe"] = gen_chain(rng, fin, maxr, rejected, "none" if family in ("hedge", "underreport") else None)
+        sc["probe"] = gen_chain(rng, fin, maxr, rejected, "none" if family in ("hedge", "underreport", "cenc") else None)
         # --- data GET (single path)
-        gcenc = ce if case.get("cenc_on") in ("get", "both") else (9 if case.get("cenc_on") == "get_unknown_overrides" else 0)
+        gcenc = gce
         r = rng.random()
-        if r < 0.7 or family == "codec":
+        if r < 0.7 or family in ("codec", "cenc"):
             units = split_units(obj, rand_sizes(rng, len(obj)))
             berr = False
-            if rng.random() < 0.15 and family != "codec":
+            if rng.random() < 0.15 and family not in ("codec", "cenc"):
                 k = rng.randint(0, len(obj))
                 units, berr = split_units(obj[:k], rand_sizes(rng, k)), True
             gfin = R(rng.choice([200, 200, 200, 206, 203]), clen=rng.choice([len(obj), None, len(obj) + 7, 3, "bad"]), cenc=gcenc, body=("static", units), berr=berr, form=form(), udelays=[rng.randint(0, 2) for _ in units])
@@ -563,7 +577,7 @@ def gen_case(rng: Any, family: str) -> dict[str, Any]:
             gfin = R(rng.choice([400, 403, 404, 416, 500, 503, 304, 300]), body=("static", [b"error page"]), form=form())
         else:
             gfin = R(0, fault=rng.randint(1, 4) if allow_retry_fault or rng.random() < 0.4 else rng.choice([1, 4]))
-        sc["get"] = gen_chain(rng, gfin, maxr, rejected)
+        sc["get"] = gen_chain(rng, gfin, maxr, rejected, "none" if family == "cenc" else None)
         # --- range tasks
         nch = -(-max(declared, 0) // cfg["chunk"]) if cfg["chunk"] > 0 else 0
         laggard = rng.randrange(nch) if nch else 0
@@ -618,10 +632,41 @@ def gen_case(rng: Any, family: str) -> dict[str, Any]:
     case["obj"] = obj
     case["obj_dec"] = obj_dec
     case["codec"] = codec
+    case["cenc_pair"] = [pce, gce]
     return case
 
 
-FAMILIES = ["retry"] * 3 + ["rangecap"] * 2 + ["single"] * 5 + ["presigned"] * 3 + ["parallel"] * 5 + ["presigned_parallel"] * 2 + ["hedge"] * 4 + ["underreport", "overreport", "overreport", "codec", "codec", "codec", "mixed", "mixed", "rejected_start", "bigchunk"]
+# (probe Content-Encoding, delivering-GET Content-Encoding) tokens: 0 none, 1 zstd, 2 gzip, 3 identity, 9 unknown ("br").
+# All 25 combinations; the "cenc" family walks through them in order (disagreements first).
+CENC_PAIRS = sorted(((p, g) for p in (0, 1, 2, 3, 9) for g in (0, 1, 2, 3, 9)), key=lambda pg: (pg[0] == pg[1] or 0 in pg, pg))
+_cenc_counter = [0]
+
+
+def encode_body(token: int, payload: bytes) -> bytes:
+    import zstandard
+
+    if token == 1:
+        return zstandard.ZstdCompressor(level=3).compress(payload)
+    if token == 2:
+        return gzip.compress(payload, mtime=0)
+    return payload
+
+
+def decode_body(token: int, body: bytes) -> bytes | None:
+    """What a client that honours the named encoding gets: decoded bytes, the body itself for none/unknown, None = undecodable."""
+    import zstandard
+
+    try:
+        if token == 1:
+            return zstandard.ZstdDecompressor().decompressobj().decompress(body)
+        if token == 2:
+            return gzip.decompress(body)
+    except Exception:  # noqa: BLE001
+        return None
+    return body
+
+
+FAMILIES = ["cenc"] * 9 + ["retry"] * 3 + ["rangecap"] * 2 + ["single"] * 5 + ["presigned"] * 3 + ["parallel"] * 5 + ["presigned_parallel"] * 2 + ["hedge"] * 4 + ["underreport", "overreport", "overreport", "codec", "codec", "codec", "mixed", "mixed", "rejected_start", "bigchunk"]
 
 
 # ----------------------------------------------------------------------------------------------------------------
@@ -630,7 +675,7 @@ FAMILIES = ["retry"] * 3 + ["rangecap"] * 2 + ["single"] * 5 + ["presigned"] * 3
 def oracle(ctx: Any, case: dict[str, Any], obs: dict[str, Any], validator_accepts: Any) -> None:
     cfg = case["cfg"]
     repl = {"family": case["family"], "cfg": cfg, "url": case["url"], "validator": case["validator"], "rejected": [POOL[i] for i in case["rejected"]],
-            "script": json.loads(json.dumps(case["attempts"], default=lambda b: b.hex() if isinstance(b, bytes) else repr(b))), "object_len": len(case["obj"])}
+            "script": json.loads(json.dumps(case["attempts"], default=lambda b: b.hex() if isinstance(b, bytes) else repr(b))), "object_len": len(case["obj"]), "content_encoding_probe_get": case.get("cenc_pair")}
     if obs["error"] is not None and obs["error"]["type"] == "HANG":
         ctx.violation("fetch-hangs", "fetch_url did not return under a scripted origin", repl)
         return
@@ -690,25 +735,37 @@ def oracle(ctx: Any, case: dict[str, Any], obs: dict[str, Any], validator_accept
         if len(data) > maxdec:
             ctx.violation("returns-more-than-max-decompressed", f"{len(data)} bytes returned, max_decompressed_bytes {maxdec}", repl)
         last = obs["attempts"][-1]
-        dcs = last["decompress"]
-        want = case["obj"]
-        if dcs:
-            import vgi_rpc._codec as cm
 
-            enc = {"zstd": cm.Encoding.ZSTD, "gzip": cm.Encoding.GZIP, "identity": cm.Encoding.IDENTITY}[dcs[0]["codec"]]
-            try:
-                want = cm.decompress(enc, case["obj"], max_output_size=None)
-            except Exception:  # noqa: BLE001
-                want = None
+        def named(seq_key: str) -> int:
+            """Content-Encoding token on the last response of a sequence, when that response is a success"""
+            sq = last["seqs"].get(seq_key) or []
+            fin_ = (sq[-1]["served"].get("final") or {}) if sq else {}
+            return fin_.get("cenc", 0) if 200 <= fin_.get("status", 0) < 300 else 0
+
+        # HTTP: Content-Encoding describes the body of the response that carries it.  Single GET: the GET's word, the
+        # probe's only when the GET is silent.  Range path: the probe's (the 206s are not consulted - reading adopted).
+        p_tok, g_tok = named("probe"), named("get")
+        # a successful single-GET fetch always issued the data GET; success without one is the range path (possibly over 0 ranges)
+        range_path = bool(last["tasks"]) or not last["seqs"].get("get")
+        eff = p_tok if range_path else (g_tok or p_tok)
+        want = decode_body(eff, case["obj"])
         if data != want:
             pr = last["seqs"].get("probe") or []
             fin = (pr[-1]["served"].get("final") or {}) if pr else {}
             declared = fin.get("clen") if pr and pr[-1]["method"] == "HEAD" else fin.get("crange")
-            if last["tasks"] and isinstance(declared, int) and declared < len(case["obj"]) and data == case["obj"][:declared]:
+            if range_path and isinstance(declared, int) and declared < len(case["obj"]) and data == case["obj"][: max(declared, 0)]:
                 ctx.violation(
                     "parallel-path-trusts-probed-length-returns-silent-prefix",
                     f"the probe reported {declared} bytes for a {len(case['obj'])}-byte object; every range response was honest "
                     f"(Content-Range .../{len(case['obj'])}); fetch_url returned a {len(data)}-byte prefix as if it were the object",
+                    repl,
+                )
+            elif not range_path and g_tok and p_tok and g_tok != p_tok:
+                ctx.violation(
+                    "probe-content-encoding-overrides-delivering-response",
+                    f"single GET: the probe named Content-Encoding token {p_tok}, the GET that delivered the body named {g_tok} "
+                    f"(0 none, 1 zstd, 2 gzip, 3 identity, 9 unknown); fetch_url returned {len(data)} bytes that are not the object "
+                    f"decoded per the delivering response ({'undecodable' if want is None else len(want)} bytes expected)",
                     repl,
                 )
             else:
@@ -875,6 +932,7 @@ P_THEOREMS = [
 def run(ctx: Any) -> None:
     from vlib.coqterm import cstr
 
+    _cenc_counter[0] = 0
     translate(ctx)
     ctx.prove(
         ["prop/P_C31.vo", "tie/T_Fetch.vo", "refuted/R_C31.vo"],
